@@ -8,7 +8,7 @@
     Go's [uint8] fields are [N]; every place where the Go code computes in
     [uint8] (or converts an [int] to [uint8], or shifts a [uint32]) carries an
     explicit [mod]. *)
-From Coq Require Import List NArith Bool.
+From Coq Require Import List NArith ZArith Bool Uint63.
 From Scion Require Import Lib.Check.
 Import ListNotations.
 Local Open Scope N_scope.
@@ -323,12 +323,15 @@ Definition unpack (v : N) : obs :=
      o_last := N.testbit v 18; o_match := N.testbit v 19; o_first := N.testbit v 20;
      o_xover := N.testbit v 21 |}.
 
-(** little-endian digits of [bits] bits each *)
-Fixpoint digits (bits : N) (k : nat) (n : N) : list N :=
+(** The runner ships its tables as lists of primitive 63-bit integers (coqc parses those
+    quickly): [per] entries of [bits] bits in each, the first entry in the low bits. *)
+Fixpoint int_digits (bits mask : int) (k : nat) (w : int) : list N :=
   match k with
   | O => []
-  | S k' => N.land n (N.ones bits) :: digits bits k' (N.shiftr n bits)
+  | S k' => Z.to_N (Uint63.to_Z (Uint63.land w mask)) :: int_digits bits mask k' (Uint63.lsr w bits)
   end.
+Definition unpack_ints (bits mask : int) (per : nat) (ws : list int) : list N :=
+  flat_map (int_digits bits mask per) ws.
 
 Definition opt_eqb (a b : option N) : bool := option_eqb N.eqb a b.
 
@@ -359,9 +362,10 @@ Definition ptr_oracle (m : meta) := ptr_oracle_on (seg_map m).
 Definition ptrs : list (N * N) :=
   flat_map (fun ci => map (fun ch => (ci, N.of_nat ch)) (seq 0 64)) [0; 1; 2; 3].
 
-(** the four rows of the runner, unpacked: one observation per (CurrINF, CurrHF) in the order of [ptrs] *)
-Definition unpack_table (rows : list N) : list obs :=
-  flat_map (fun r => map unpack (digits 24 64 r)) rows.
+(** the runner's table, unpacked: one observation per (CurrINF, CurrHF) in the order of [ptrs],
+    two 30-bit entries per integer *)
+Definition unpack_table (ws : list int) : list obs :=
+  map unpack (unpack_ints 30%uint63 1073741823%uint63 2 ws).
 
 Definition table_agree (b : base) (os : list obs) : bool :=
   Nat.eqb (length os) (length ptrs) &&
@@ -392,7 +396,8 @@ Definition n64 : list N := map N.of_nat (seq 0 64).
 (** the pairs (SegLen[1], SegLen[2]) in the order of the runner's rows *)
 Definition acc_entries (f : meta -> N) (s0 : N) : list N :=
   flat_map (fun s1 => map (fun s2 => f (shape_meta s0 s1 s2)) n64) n64.
-Definition unpack_acc (rows : list N) : list N := flat_map (digits 16 64) rows.
+(** five 12-bit entries per integer *)
+Definition unpack_acc (ws : list int) : list N := unpack_ints 12%uint63 4095%uint63 5 ws.
 
 Definition nlist_eqb := list_eqb N.eqb.
 
@@ -433,10 +438,10 @@ Inductive case :=
 | CWord (w : N) (impl : list N)
 (* MetaHdr.SerializeTo on arbitrary uint8 field values *)
 | CEnc (ci ch s0 s1 s2 : N) (impl : N)
-(* Base.DecodeFromBytes for one SegLen[0] and all 64 x 64 (SegLen[1], SegLen[2]); one number per SegLen[1] *)
-| CAccept (s0 : N) (impl : list N)
-(* all 4 x 64 pointer values on one accepted shape: NumINF, NumHops, one number per CurrINF *)
-| CShape (s0 s1 s2 : N) (ninf nhops : N) (impl : list N)
+(* Base.DecodeFromBytes for one SegLen[0] and all 64 x 64 (SegLen[1], SegLen[2]), packed *)
+| CAccept (s0 : N) (impl : list int)
+(* all 4 x 64 pointer values on one accepted shape: NumINF, NumHops, the packed observations *)
+| CShape (s0 s1 s2 : N) (ninf nhops : N) (impl : list int)
 (* the walk from hop 0 with IncPath until it fails: CurrINF at every position *)
 | CWalk (s0 s1 s2 : N) (impl : list N)
 (* a full path: word, buffer length, contents; decode result as seen through Decoded and through Raw
@@ -507,8 +512,10 @@ Definition check (c : case) : N :=
       (meta_encode {| curr_inf := ci; curr_hf := ch; seg0 := s0; seg1 := s1; seg2 := s2 |} =? impl)
       (enc_oracle ci ch s0 s1 s2 impl)
   | CAccept s0 impl =>
-    Check.verdict (nlist_eqb (acc_entries acc_pack s0) (unpack_acc impl))
-                  (nlist_eqb (acc_entries spec_acc_pack s0) (unpack_acc impl))
+    (* 4096 entries; the last integer carries one unused slot *)
+    let es := firstn 4096 (unpack_acc impl) in
+    Check.verdict (nlist_eqb (acc_entries acc_pack s0) es)
+                  (nlist_eqb (acc_entries spec_acc_pack s0) es)
   | CShape s0 s1 s2 ninf nhops impl =>
     let m := shape_meta s0 s1 s2 in
     let os := unpack_table impl in
@@ -556,7 +563,11 @@ Definition diag (c : case) : list N :=
   | CWord w _ => word_obs w
   | CEnc ci ch s0 s1 s2 _ =>
     [meta_encode {| curr_inf := ci; curr_hf := ch; seg0 := s0; seg1 := s1; seg2 := s2 |}]
-  | CAccept s0 _ => acc_entries acc_pack s0
+  | CAccept s0 impl =>
+    (* positions SegLen[1] * 64 + SegLen[2] where model and implementation differ *)
+    map (fun pe => N.of_nat (fst pe))
+        (filter (fun pe => negb (fst (snd pe) =? snd (snd pe)))
+                (combine (seq 0 4096) (combine (acc_entries acc_pack s0) (firstn 4096 (unpack_acc impl)))))
   | CShape s0 s1 s2 _ _ impl =>
     match base_decode (shape_meta s0 s1 s2) with
     | Some b =>
